@@ -47,6 +47,8 @@ const guardAgreeClause = "guard agreement (E14): a variable assigned at several 
 
 const resolutionClause = "type resolution forms (E21): code that branches on the two forms of one ir.TypeResolution (inline Value vs Handle into Module.Types) and inspects the type in both branches recognises the same type shapes (scalar, vector, matrix ...) in both"
 
+const recursionDepthClause = "nesting depth (E26): a self-recursive writer that uses an int parameter to spell a per-level generated name (loop variables of the zero-initialisation loops) or as a recursion bound passes a changed depth at every self-call made at a level that has used it - otherwise the inner loop variable shadows the outer one and only the diagonal of a nested array is written"
+
 const orderClause = "operand order (E12): wherever a value derived only from the left operand of a binary expression (.Left of a node that has both fields, or the first of the two operand parameters of a function that also takes the operator) and one derived only from the right operand are handed on together - two arguments of a call, two elements of a positional literal, the Left/Right fields of a keyed literal, two consecutive text emissions - the left-derived one comes first; the sites that mirror the operands on purpose (HLSL mul, OpMatrixTimesScalar / OpVectorTimesScalar with a scalar on the left) are counted and must stay mirrored"
 
 var orderFloors = map[string]int{"hlsl": 6, "msl": 7, "glsl": 25, "spirv": 15, "wgsl": 9, "ir": 5}
@@ -76,6 +78,9 @@ func backendProp(b backendSpec, meaning string) propFunc {
 			c.runResolutionSiblings(r, "resolution.siblings", inPkgs("glsl"), nil)
 			r.floor("resolution.siblings", 4)
 		}
+		r.Clauses = append(r.Clauses, recursionDepthClause)
+		c.runRecursionDepth(r, "recursion.depth", inPkgs(b.Name))
+		r.floor("recursion.depth", 1)
 		r.Clauses = append(r.Clauses, enumMapClause)
 		c.runEnumTables(r, b.Name)
 		r.Clauses = append(r.Clauses, "termination predicate (E15): the predicate over a block's last statement that decides whether a switch clause needs a closing break answers true only for Break/Continue/Return/Kill, for a trailing nested block what it answers for that block, for a trailing if only when both arms are terminated")
@@ -87,6 +92,9 @@ func backendProp(b backendSpec, meaning string) propFunc {
 			r.floor("guard.agree", 3)
 		}
 		if b.Name == "hlsl" {
+			r.Clauses = append(r.Clauses, "column stride (E25): the byte stride used to address a matrix column in a buffer is the alignment factor of a vector with Rows components (never Columns)")
+			c.runColStride(r, "layout.colstride", inPkgs("hlsl"))
+			r.floor("layout.colstride", 3)
 			r.Clauses = append(r.Clauses, colVecClause)
 			c.runColVec(r, "shape.colvec", inPkgs("hlsl", "ir"))
 			r.floor("shape.colvec", 5)
